@@ -234,21 +234,31 @@ def run(ctx: Ctx) -> None:
 
     # ---- R5 -------------------------------------------------------------------------------
     n5 = 0
-    for f in inspectors(ctx):
+    from .c11 import families
+    for fam in families(ctx):
+        f = fam.holder
         cfg = cfg_of(f)
         outs: List[Node] = []
         for r in [x for x in f.own_nodes() if isinstance(x, ast.Return) and (x.value is None or (isinstance(x.value, ast.Constant) and x.value.value is None))]:
             o, atoms = pass_outcomes(cfg, f.module, r)
             if any("ExternalObject" in unparse(a) for a in atoms):
                 outs += o
-        for call in descents(ctx, f):
+        sites = [(f, c) for c in descents(ctx, f)]
+        # handler methods are entered through the dispatch call of the holder only
+        for hq, (hm, kp) in fam.handlers.items():
+            for c in descents(ctx, hm):
+                for dc in fam.dispatch_calls:
+                    sites.append((hm, c, dc))  # type: ignore
+        for site_ in sites:
             n5 += 1
+            g, call = site_[0], site_[1]
+            anchor = site_[2] if len(site_) > 2 else call
             desc = f"descent `{unparse(call, 50)}` happens only for a resolved, authorised callee"
-            w = dominated(ctx, f, call, outs)
+            w = dominated(ctx, f, anchor, outs)
             if w is None:
-                rep.ok("C14.R5", f.qname, desc, f.loc(call))
+                rep.ok("C14.R5", g.qname, desc, g.loc(call))
             else:
-                rep.bad("C14.R5", f.qname, desc, f.loc(call), w, stmt_key(call), what="the analysis can descend into code of a non-accepted module")
+                rep.bad("C14.R5", g.qname, desc, g.loc(call), w, stmt_key(call), what="the analysis can descend into code of a non-accepted module")
     rep.floor("C14.R5", n5, 4)
 
     # ---- R6 -------------------------------------------------------------------------------
